@@ -53,7 +53,13 @@ MoreSteps ==
     AggS(<< [name |-> "a1", t |-> "count"], [name |-> "a2", t |-> "field", field |-> "x"] >>),
     SkipS(1), RangeS(0, 1), RangeS(1, -1), StartS("E", <<>>), StartS("V", <<"a">>) }
 
-Alphabet == IF Alpha = "full" THEN CoreSteps \cup MoreSteps ELSE CoreSteps
+\* marks and the moves between element types, one statement deeper than the full alphabet: a mark set on one
+\* kind of element and selected from the other kind, re-marked and moved on from
+MarkSteps ==
+  { Mov("out", <<>>), Mov("outE", <<>>), Mov("inE", <<"K1">>), Mov("both", <<>>),
+    AsS("m"), AsS("m2"), SelS(<<"m">>), SelS(<<"m2">>), SelS(<<"m", "m2">>), HasLabelS(<<"L1">>) }
+
+Alphabet == IF Alpha = "full" THEN CoreSteps \cup MoreSteps ELSE IF Alpha = "marks" THEN MarkSteps ELSE CoreSteps
 
 VARIABLES prog, status, ty, mt
 vars == <<prog, status, ty, mt>>
